@@ -143,6 +143,9 @@ type Request struct {
 type Reply struct {
 	Raw  []byte
 	Hold <-chan struct{}
+	// HangUp: after the answer has been written (and the stream closed, which flushes it), close the
+	// whole connection: a "hit and run" peer that is gone before its data is judged
+	HangUp bool
 }
 
 // Byz is a scripted peer speaking the gateway protocol directly: gateway handshake written out
@@ -228,6 +231,14 @@ func (b *Byz) handshake() error {
 	return nil
 }
 
+// SetHandler installs the handler after the connection exists (requests that arrive before are
+// dropped; the victim only asks at its next sync tick).
+func (b *Byz) SetHandler(h func(req *Request) Reply) {
+	b.mu.Lock()
+	b.Handler = h
+	b.mu.Unlock()
+}
+
 // Closed is closed when the connection is gone (closed by the victim or by us).
 func (b *Byz) Closed() <-chan struct{} { return b.closed }
 
@@ -293,10 +304,20 @@ func (b *Byz) handle(s *mux.Stream) {
 	req.Seq = b.seq
 	b.seq++
 	b.mu.Unlock()
-	if b.Handler == nil {
+	var h func(req *Request) Reply
+	for i := 0; i < 200; i++ { // a handler installed with SetHandler may be a moment late
+		b.mu.Lock()
+		h = b.Handler
+		b.mu.Unlock()
+		if h != nil || b.IsClosed() {
+			break
+		}
+		time.Sleep(10 * time.Millisecond)
+	}
+	if h == nil {
 		return
 	}
-	rep := b.Handler(req)
+	rep := h(req)
 	if rep.Hold != nil {
 		select {
 		case <-rep.Hold:
@@ -306,6 +327,11 @@ func (b *Byz) handle(s *mux.Stream) {
 	}
 	if len(rep.Raw) > 0 {
 		s.Write(rep.Raw)
+	}
+	if rep.HangUp {
+		s.Close()
+		time.Sleep(60 * time.Millisecond)
+		b.Close()
 	}
 }
 
